@@ -244,6 +244,15 @@ class TransactionManager(Elaboratable):
                 if (common_ancestors := longest_common_prefix(call1.ancestors, call2.ancestors))
             )
 
+        def calls_exclusive_within(trans: TBody, body1: Body, body2: Body):
+            if body1 is trans or body2 is trans:
+                return False
+            return all(
+                call_paths_exclusive(call1.call_path, call2.call_path)
+                for call1 in method_map.info_by_call[(trans, MBody(body1))]
+                for call2 in method_map.info_by_call[(trans, MBody(body2))]
+            )
+
         cgr: TransactionGraph = {}  # Conflict graph
         pgr: TransactionGraph = {}  # Priority graph
 
@@ -281,6 +290,15 @@ class TransactionManager(Elaboratable):
 
             for trans_start in method_map.transactions_for(start):
                 for trans_end in method_map.transactions_for(end):
+                    if relation.conflict and trans_start is trans_end:
+                        # Both sides of the conflict are reached from a single transaction. No scheduling
+                        # decision can separate them, so they must sit on mutually exclusive call paths.
+                        if not calls_exclusive_within(trans_start, start, end):
+                            raise RuntimeError(
+                                f"{start.name!r} {start.src_loc} conflicts with {end.name!r} {end.src_loc} "
+                                f"but both are run by transaction {trans_start.name!r} {trans_start.src_loc}"
+                            )
+                        continue
                     conflict = relation.conflict and not TransactionManager._transactions_exclusive(
                         method_map, trans_start, trans_end
                     )
